@@ -15,6 +15,8 @@ const RAW: &[&str] = &[
     "t 3 0 >/dev/null",
     "t 4 1 2>&1",
     "cat <<<here",
+    "read -r -u 3 hv 3<<< \"hello\"; echo \"hv:$hv\"",
+    "{ read -r -u 4 hw; echo \"hw:$hw\"; } 4<<< fd4",
     "t 5 0 >&2 2>/dev/null",
     "{ t 6 0; } >/dev/null 2>&1",
     "while lim 90 1; do t 7 0; done >/dev/null",
